@@ -18,12 +18,14 @@ def repo():
     return os.environ.get("VERIF_REPO", "/repo")
 
 
-def run_batch(cases, timeout=900, nproc=4):
+def run_batch(cases, timeout=None, nproc=4):
     """Run the cases (dicts, see fakeworker.run_case) in `nproc` fresh interpreters; returns the
     observations in order.  A batch that dies is reported as harness-error observations."""
     if not cases:
         return []
     nproc = max(1, min(nproc, len(cases)))
+    if timeout is None:
+        timeout = 120 + 20 * (len(cases) // nproc + 1)
     chunks = [list(range(i, len(cases), nproc)) for i in range(nproc)]
     tmp = tempfile.mkdtemp(prefix="verif-schedb-", dir="/tmp")
     procs = []
@@ -394,8 +396,12 @@ def drive(ctx, name, spec_defs, n_async, n_sync, n_exh, rule, spec_note, fail_p=
         if c["mode"] == "sync" and fail_p == 0.0:
             c["fail"] = []
     cases += [dict(c) for c in extra_cases]
+    import time as _t
+    t0 = _t.time()
     obs = run_batch(cases, nproc=nproc or (6 if ctx.tier == "thorough" else 4))
+    t1 = _t.time()
     bad, usable = evaluate(ctx, name, cases, obs, spec_defs, "spec_ok")
+    t2 = _t.time()
     out = Outcome(rule=rule)
     seen = set()
     dist = {"async": 0, "sync": 0, "cf": 0, "with_failures": 0, "k_limited": 0, "exhaustive_small": 0,
@@ -421,7 +427,8 @@ def drive(ctx, name, spec_defs, n_async, n_sync, n_exh, rule, spec_note, fail_p=
     out.distribution = dist
     out.samples = [{"case": {k: v for k, v in cases[i].items() if k != "oracle"}, "observed": slim(obs[i])}
                    for i in usable[:3]]
-    out.extra = {"exhaustive_space_small_shapes": exh_total}
+    out.extra = {"exhaustive_space_small_shapes": exh_total,
+                 "timing_s": {"implementation_runs": round(t1 - t0, 1), "coq_evaluation": round(t2 - t1, 1)}}
     for i, o in enumerate(obs):
         if i not in usable:
             out.failures.append(Failure(case=cases[i], observed=o, expected="a run", kind="tie",
